@@ -51,7 +51,7 @@ type c18AOp struct {
 	ID     uint32 `json:"id,omitempty"`
 	Seed   uint32 `json:"seed,omitempty"`
 	Chunk  int    `json:"chunk,omitempty"`  // step: chunk selector (mod number of chunks); -1 = one batch in every chunk
-	Inter  string `json:"inter,omitempty"`  // step: "", "free" (free a batch member), "realloc" (free it and allocate+write the same id again), "alloc" (allocate+write a fresh id)
+	Inter  string `json:"inter,omitempty"`  // step: "", "free" (free a batch member), "realloc" (free it and allocate+write the same id again), "write" (overwrite a batch member), "alloc" (allocate+write a fresh id)
 	Victim int    `json:"victim,omitempty"` // step/free: index into the batch (mod len)
 }
 
@@ -60,8 +60,6 @@ type c18ACase struct {
 	PerChunk int      `json:"per_chunk"`
 	Ops      []c18AOp `json:"ops"`
 }
-
-const c18FindingABA = "movebatch-aba-stale-copy"
 
 func c18Quiet() {
 	slog.SetDefault(slog.New(slog.NewTextHandler(io.Discard, nil)))
@@ -411,6 +409,19 @@ func (r *c18Runner) step(op c18AOp) string {
 		if m := r.allocWrite(id, op.Seed); m != "" {
 			return m
 		}
+	case "write": // overwrite a batch member in place
+		v := op.Victim % len(batch)
+		if v < 0 {
+			v = -v
+		}
+		id := batch[v]
+		b, err := va.GetBytes(id)
+		if err != nil {
+			return fmt.Sprintf("GetBytes(%d) of a live id failed: %v", id, err)
+		}
+		copy(b, c18Pattern(id, op.Seed, r.vecSize))
+		r.model[id] = op.Seed
+		r.staleSkipped++
 	case "alloc":
 		id := r.nextNew
 		r.nextNew++
@@ -594,7 +605,7 @@ func c18GenACase(col *verifkit.Collector) *rapid.Generator[c18ACase] {
 				if op.Chunk < 0 {
 					op.Chunk = -1
 				}
-				switch rapid.IntRange(0, 4).Draw(rt, "inter") {
+				switch rapid.IntRange(0, 5).Draw(rt, "inter") {
 				case 0:
 					op.Inter = "free"
 					op.Victim = rapid.IntRange(0, 7).Draw(rt, "victim")
@@ -605,13 +616,10 @@ func c18GenACase(col *verifkit.Collector) *rapid.Generator[c18ACase] {
 					op.Inter = "realloc"
 					op.Victim = rapid.IntRange(0, 7).Draw(rt, "victim")
 					op.Seed = rapid.Uint32().Draw(rt, "seed")
-					if verifkit.Known(c18FindingABA) {
-						// known finding: an id freed and re-allocated (LIFO: same slot) between snapshot and
-						// moveBatch passes the re-validation and is overwritten with the stale snapshot.
-						// Avoid that shape only: the re-allocation is dropped, the free stays.
-						op.Inter, op.Seed = "free", 0
-						col.Excluded(c18FindingABA)
-					}
+				case 3:
+					op.Inter = "write"
+					op.Victim = rapid.IntRange(0, 7).Draw(rt, "victim")
+					op.Seed = rapid.Uint32().Draw(rt, "seed")
 				}
 			case k < 17:
 				if cycles >= 2 {
@@ -655,7 +663,7 @@ func c18ALabels(c c18ACase, r *c18Runner) (bool, []string) {
 		labels = append(labels, "chunk-dropped")
 	}
 	if r.staleSkipped > 0 {
-		labels = append(labels, "free-between-snapshot-and-move")
+		labels = append(labels, "mutation-of-a-batch-member-between-snapshot-and-move")
 	}
 	for _, op := range c.Ops {
 		if op.Op == "step" && op.Inter == "alloc" {
@@ -669,11 +677,17 @@ func c18ALabels(c c18ACase, r *c18Runner) (bool, []string) {
 			break
 		}
 	}
+	for _, op := range c.Ops {
+		if op.Op == "step" && op.Inter == "write" {
+			labels = append(labels, "overwrite-between-snapshot-and-move")
+			break
+		}
+	}
 	nt := r.maxChunk >= 2 && r.reuse > 0 && (r.relocations > 0 || r.reopens > 1)
 	return nt, labels
 }
 
-const c18ARule = "rapid: vector size from {1,3,8,24,64,100,512,4096} bytes, vectors per chunk lowered to {1,2,3,4,8} (64 MiB sparse chunk files), id universe 3-6 chunks wide; history = prefill allocs [+ a generated set of frees and one compaction sweep] + 1-40 ops from alloc(+write) / alloc of a live id / free / overwrite / deterministic compaction step in one chunk or sweep over all chunks (identifyVectorsToMove->snapshot->FindFreeSlots->[nothing | FreeSlot of a batch member | FreeSlot + re-alloc/write of a batch member | alloc of a fresh id]->moveBatch->tryDropEmptyChunks) / real RunCycle (<=2 per case, started compactor, deadline then Stop()) / GetState->LoadState / GetState->Close->reopen->LoadState; then a drain (fresh allocs until every free slot was handed out again) and a final close/reopen; oracle after every step: every live id reads its own pattern, live physical slots pairwise distinct, no live id in a missing/dropped chunk, the caller's node pointer aliases the current slot; non-trivial = live ids reached >=3 chunks AND a freed slot was reused AND (a vector was relocated OR the arena was reopened mid-history)"
+const c18ARule = "rapid: vector size from {1,3,8,24,64,100,512,4096} bytes, vectors per chunk lowered to {1,2,3,4,8} (64 MiB sparse chunk files), id universe 3-6 chunks wide; history = prefill allocs [+ a generated set of frees and one compaction sweep] + 1-40 ops from alloc(+write) / alloc of a live id / free / overwrite / deterministic compaction step in one chunk or sweep over all chunks (identifyVectorsToMove->snapshot->FindFreeSlots->[nothing | FreeSlot of a batch member | FreeSlot + re-alloc/write of a batch member | overwrite of a batch member | alloc of a fresh id]->moveBatch->tryDropEmptyChunks) / real RunCycle (<=2 per case, started compactor, deadline then Stop()) / GetState->LoadState / GetState->Close->reopen->LoadState; then a drain (fresh allocs until every free slot was handed out again) and a final close/reopen; oracle after every step: every live id reads its own pattern, live physical slots pairwise distinct, no live id in a missing/dropped chunk, the caller's node pointer aliases the current slot; non-trivial = live ids reached >=3 chunks AND a freed slot was reused AND (a vector was relocated OR the arena was reopened mid-history)"
 
 func TestVerif_C18_arena(t *testing.T) {
 	c18Quiet()
